@@ -112,7 +112,7 @@ func TestE2E(t *testing.T) {
 			return
 		}
 	}
-	cmd := exec.Command("unshare", "-n", os.Args[0], "-test.run", "^TestE2E$", "-test.timeout", "120s")
+	cmd := exec.Command("unshare", "-n", os.Args[0], "-test.run", "^TestE2E$", "-test.timeout", "300s")
 	cmd.Env = append(os.Environ(), "E2E_INNER=1", "E2E_DIR="+dir, "VERIF_OUT="+outDir(t))
 	out, err := cmd.CombinedOutput()
 	os.WriteFile(filepath.Join(dir, "inner.log"), out, 0o644)
@@ -289,6 +289,19 @@ func e2eInner(t *testing.T) {
 			copy(rep[24:28], f.b[28:32])
 			atomic.CompareAndSwapInt64(&claimedAt, 0, time.Now().UnixNano())
 			inject(srvMAC, foreign, 0x0806, rep)
+		}
+		// the client's look-up of the server's hardware address (before a unicast renewal): with both ends in one network stack
+		// the kernel does not answer an ARP request whose sender address is one of its own, so the observer answers for the server
+		if !f.outgoing && len(f.b) >= 42 && f.b[12] == 0x08 && f.b[13] == 0x06 && binary.BigEndian.Uint16(f.b[20:]) == 1 &&
+			binary.BigEndian.Uint32(f.b[38:]) == srvIP && binary.BigEndian.Uint32(f.b[28:]) != 0 {
+			rep := make([]byte, 28)
+			copy(rep, []byte{0, 1, 8, 0, 6, 4, 0, 2})
+			copy(rep[8:14], srvMAC)
+			binary.BigEndian.PutUint32(rep[14:], srvIP)
+			copy(rep[18:24], f.b[22:28])
+			copy(rep[24:28], f.b[28:32])
+			fr := append(append(append([]byte{}, f.b[6:12]...), srvMAC...), 0x08, 0x06)
+			syscall.Write(tapFd, append(fr, rep...))
 		}
 	})
 
@@ -569,6 +582,97 @@ func e2eInner(t *testing.T) {
 		bad("c10", "e2e-server-died", "psa-dhcpd is gone: %s", tailStr(srvLog.String(), 600))
 	}
 	checkIface("after malformed frames")
+	// ---- thorough tier: real timers.  Renewal by unicast at T1 = 30 s after the last ACK, then the server is stopped:
+	// rebinding at T2 = 52.5 s, the address is removed at the expiry (60 s) and discovery starts again ----
+	if os.Getenv("VERIF_TIER") == "thorough" && gotAck && alive(cli) && alive(srv) {
+		var t0 time.Time // when the last ACK went out
+		for _, f := range tap.snapshot() {
+			if f.outgoing && len(f.b) > 14+28 && f.b[12] == 0x08 && f.b[13] == 0 {
+				if rp := parseReply(f.b[14:]); rp.ok && rp.typ == 5 {
+					t0 = f.t
+				}
+			}
+		}
+		mark := len(tap.snapshot())
+		waitFor := func(until time.Time, pred func(e2eFrame, wreply) bool) (e2eFrame, wreply, bool) {
+			for time.Now().Before(until) {
+				for _, f := range tap.snapshot()[mark:] {
+					if len(f.b) > 14+28 && f.b[12] == 0x08 && f.b[13] == 0 {
+						if rp := parseReply(f.b[14:]); rp.ok && pred(f, rp) {
+							return f, rp, true
+						}
+					}
+				}
+				time.Sleep(100 * time.Millisecond)
+			}
+			return e2eFrame{}, wreply{}, false
+		}
+		near := func(at time.Time, secs float64, what string) {
+			d := at.Sub(t0).Seconds()
+			if d < secs-0.5 || d > secs+3 {
+				bad("c15", "e2e-timer", "%s happened %.2f s after the ACK; due at %.1f s", what, d, secs)
+			}
+		}
+		seen("c15")
+		f, rp, ok := waitFor(t0.Add(36*time.Second), func(f e2eFrame, rp wreply) bool { return !f.outgoing && rp.typ == 3 && rp.msg.ciaddr != 0 })
+		if !ok {
+			bad("c15", "e2e-timer", "no renewing REQUEST within 36 s of the ACK (T1 = 30 s)\n%s", tailStr(cliLog.String(), 500))
+		} else {
+			near(f.t, 30, "the first renewing REQUEST")
+			seen("c16")
+			if !bytes.Equal(f.b[0:6], srvMAC) || rp.dst != srvIP || rp.src != rp.msg.ciaddr {
+				bad("c16", "e2e-client-frame", "renewing REQUEST sent to %s / %s from %s; it goes by unicast from the leased address to the server (%s / %s)", net.HardwareAddr(f.b[0:6]), ip4(rp.dst), ip4(rp.src), srvMAC, ip4(srvIP))
+			}
+			c.add(1610, "e2e-client-renew", true, args(L{2, uint64(rp.msg.ciaddr), uint64(srvIP)}, B(cliMAC), B(f.b[14:])), args(L{1}))
+			if af, arp, ok := waitFor(f.t.Add(4*time.Second), func(g e2eFrame, r wreply) bool { return g.outgoing && r.typ == 5 && r.msg.xid == rp.msg.xid }); ok {
+				t0 = af.t
+				x := arp
+				lastAck = &x
+				seen("c06")
+				cs.add(1410, "e2e-ack-renew", true, args(L{2, uint64(rp.msg.xid), uint64(rp.msg.ciaddr), 1, uint64(srvIP)}, B(cliMAC), B(af.b[14:])), args(L{1}))
+			} else {
+				bad("c15", "e2e-timer", "renewing REQUEST not acknowledged\n%s", tailStr(srvLog.String(), 500))
+			}
+		}
+		time.Sleep(800 * time.Millisecond)
+		checkIface("after the renewal")
+		seen("c19")
+		if n := stableSockets(cli.Process.Pid); n != cliQuiet {
+			bad("c19", "e2e-sockets", "psa-dhcpc holds %d sockets after the renewal, %d while bound before it", n, cliQuiet)
+		}
+		if n := stableSockets(srv.Process.Pid); n != srvBase {
+			bad("c19", "e2e-sockets", "psa-dhcpd holds %d sockets after the renewal, %d at start", n, srvBase)
+		}
+		// the server goes away
+		srv.Process.Kill()
+		mark = len(tap.snapshot())
+		if f, _, ok := waitFor(t0.Add(58*time.Second), func(f e2eFrame, rp wreply) bool {
+			return !f.outgoing && rp.typ == 3 && rp.msg.ciaddr != 0 && rp.dst == 0xffffffff
+		}); !ok {
+			bad("c15", "e2e-timer", "no rebinding REQUEST within 58 s of the last ACK (T2 = 52.5 s)\n%s", tailStr(cliLog.String(), 500))
+		} else {
+			near(f.t, 52.5, "the first rebinding REQUEST")
+		}
+		// expiry: the address goes, discovery restarts
+		var gone time.Time
+		for end := t0.Add(66 * time.Second); time.Now().Before(end); time.Sleep(100 * time.Millisecond) {
+			if configured() == "" {
+				gone = time.Now()
+				break
+			}
+		}
+		if gone.IsZero() {
+			bad("c15", "e2e-timer", "the address is still configured 66 s after the last ACK of a 60 s lease\n%s", tailStr(cliLog.String(), 500))
+		} else {
+			near(gone, 60, "the removal of the address")
+			if gone.Sub(t0) < 59*time.Second {
+				bad("c15", "e2e-timer", "address removed %.2f s after the last ACK, before the lease of 60 s ran out", gone.Sub(t0).Seconds())
+			}
+			if _, _, ok := waitFor(gone.Add(5*time.Second), func(f e2eFrame, rp wreply) bool { return !f.outgoing && rp.typ == 1 && f.t.After(gone.Add(-time.Second)) }); !ok {
+				bad("c15", "e2e-timer", "no DISCOVER within 5 s of the expiry\n%s", tailStr(cliLog.String(), 500))
+			}
+		}
+	}
 	syscall.Close(tapFd)
 	syscall.Close(injFd)
 	if os.Getenv("E2E_LOGS") != "" {
